@@ -235,7 +235,7 @@ func (ex *Exec) tryMerge(fr *Frame, b *ssa.BasicBlock, c *Term) (next *ssa.Basic
 		return nil, false
 	}
 	ts := ex.ts
-	pcLen, decLen, altLen := len(ex.pc), len(ex.decisions), len(ex.newAlts)
+	pcLen, decLen, altLen, spcLen := len(ex.pc), len(ex.decisions), len(ex.newAlts), len(ex.spc)
 	var undo []undoRec
 	ex.inMerge = true
 	success := false
@@ -256,6 +256,7 @@ func (ex *Exec) tryMerge(fr *Frame, b *ssa.BasicBlock, c *Term) (next *ssa.Basic
 				delete(ex.pcSet, t)
 			}
 			ex.pc = ex.pc[:pcLen]
+			ex.spc = ex.spc[:spcLen]
 			ex.decisions = ex.decisions[:decLen]
 			ex.newAlts = ex.newAlts[:altLen]
 			next, ok = nil, false
